@@ -28,6 +28,7 @@ type Case struct {
 	Dict    gen.DictChoice `json:"dict"`
 	Msg     gen.Msg        `json:"msg"`
 	TopDown bool           `json:"top_down,omitempty"` // groups created empty, attached, filled afterwards
+	Literal bool           `json:"literal,omitempty"`  // AVP struct literals instead of the constructors
 }
 
 func hasAmb(avps []*gen.AVP) bool {
@@ -54,6 +55,7 @@ var diff = ev.Register(&ev.Prop[Case]{
 		}
 		c.Msg = cat.Message(t, gen.TreeOpts{MaxTop: 12, MaxDepth: rapid.IntRange(1, ev.Pick(4, 10)).Draw(t, "max-depth")})
 		c.TopDown = rapid.Bool().Draw(t, "top-down")
+		c.Literal = rapid.IntRange(0, 3).Draw(t, "literal") == 0
 		return c
 	},
 	Run: runDiff,
@@ -71,7 +73,7 @@ func buildMsg(c Case) (*diam.Message, error) {
 	m := diam.NewMessage(c.Msg.Code, c.Msg.Flags, c.Msg.App, c.Msg.HbH, c.Msg.E2E, p)
 	m.Header.HopByHopID, m.Header.EndToEndID = c.Msg.HbH, c.Msg.E2E
 	for _, a := range c.Msg.AVPs {
-		m.AddAVP(a.Build(gen.BuildOpts{TopDown: c.TopDown}))
+		m.AddAVP(a.Build(gen.BuildOpts{TopDown: c.TopDown, Literal: c.Literal}))
 	}
 	return m, nil
 }
